@@ -3,12 +3,17 @@
 //! `kvarn::handle_connection` over a loopback TCP pair (one connection per request; the
 //! server task is joined before the log is read, so Post extensions have run).
 //!
-//! scenario = (L (L edit...) (L (B path)...))
-//! edit     = (L kind code prio key payload body)   kind 0 prime 1 prepare_fn 2 present_fn 3 package 4 post
+//! scenario = (L (L edit...) (L request...) [options])
+//! edit     = (L kind code prio key payload body [pref])   kind 0 prime 1 prepare_fn 2 present_fn 3 package 4 post
 //!                                                  5 prepare_single 6 present_internal 7 present_file
 //!                                                  code 0 add, 1 add with Id::no_override(), 2 remove
-//! payload  = (L 0 from to) | (L 1 prefix body) | (L 2 prefix) | (L 3)
+//! payload  = (L 0 from to) | (L 1 prefix body [pref]) | (L 2 prefix) | (L 3)
+//!            pref = server cache preference of the Prepare answer: 0 None, 1 Full, 2 QueryMatters; 3 = Full with a future that streams "+streamed" after the body
+//! request  = (B path) = GET path | (L method (B target) (L) | (L start end))   method 0 GET 1 HEAD 2 POST 3 PUT 4 DELETE
+//! options  = (L cache (L) | (L (L (L path content)...)))   response cache on/off; files of the public directory (else fs disabled)
 //! result   = (L (L outcome (L event...))...)   outcome = (L 0 (L status body)) | (L 2) connection closed without answer
+//! Every marker logs the index of the edit that registered it (its mark), so that a replaced closure is told
+//! from the one that replaced it; the body of an error response (status >= 400) and of a HEAD response is empty.
 use crate::xval::X;
 use bytes::Bytes;
 use kvarn::extensions::{Extensions, Id};
@@ -20,8 +25,30 @@ type Log = Arc<Mutex<Vec<X>>>;
 struct Marker {
     log: Log,
     prio: Mutex<i128>, // the priority the extension was registered with (after no_override)
+    mark: u128,        // index of the edit that registered this closure
     a: Vec<u8>,
     b: Vec<u8>,
+    pref: u128,
+}
+
+fn fat(body: &[u8], pref: u128) -> FatResponse {
+    let r = Response::new(Bytes::copy_from_slice(body));
+    match pref {
+        0 => FatResponse::no_cache(r),
+        1 => FatResponse::cache(r),
+        2 => FatResponse::cache(r).with_server_cache(comprash::ServerCachePreference::QueryMatters),
+        // a streamed body of unknown length: the future writes after the body
+        _ => FatResponse::cache(r).with_future(kvarn::response_pipe_fut!(pipe, _host, {
+            let _ = pipe.send(Bytes::from_static(b"+streamed")).await;
+        })),
+    }
+}
+
+fn target_of(uri: &Uri) -> Vec<u8> {
+    match uri.path_and_query() {
+        Some(pq) => pq.as_str().as_bytes().to_vec(),
+        None => uri.path().as_bytes().to_vec(),
+    }
 }
 
 fn leak(s: &[u8]) -> Option<&'static str> {
@@ -41,27 +68,38 @@ struct Edit {
     ptag: u128,
     pa: Vec<u8>,
     pb: Vec<u8>,
+    ppref: u128,
     body: Vec<u8>,
+    pref: u128,
 }
 
 fn parse_edit(x: &X) -> Option<Edit> {
     let l = x.as_l()?;
-    if l.len() != 6 {
+    if l.len() != 6 && l.len() != 7 {
         return None;
     }
+    let pref = if l.len() == 7 { l[6].as_n()? } else { 0 };
     let p = l[4].as_l()?;
     let ptag = p.first()?.as_n()?;
+    let mut ppref = 0;
     let (pa, pb) = match (ptag, p.len()) {
         (0, 3) | (1, 3) => (p[1].as_b()?.to_vec(), p[2].as_b()?.to_vec()),
+        (1, 4) => {
+            ppref = p[3].as_n()?;
+            (p[1].as_b()?.to_vec(), p[2].as_b()?.to_vec())
+        }
         (2, 2) => (p[1].as_b()?.to_vec(), Vec::new()),
         (3, 1) => (Vec::new(), Vec::new()),
         _ => return None,
     };
+    if pref >= 4 || ppref >= 4 {
+        return None;
+    }
     let (kind, code) = (l[0].as_n()?, l[1].as_n()?);
     if kind >= 8 || code >= 3 {
         return None;
     }
-    Some(Edit { kind, code, prio: l[2].as_z()?, key: l[3].as_b()?.to_vec(), ptag, pa, pb, body: l[5].as_b()?.to_vec() })
+    Some(Edit { kind, code, prio: l[2].as_z()?, key: l[3].as_b()?.to_vec(), ptag, pa, pb, ppref, body: l[5].as_b()?.to_vec(), pref })
 }
 
 /// The priority an `Id` ended up with is only visible in the listing; the markers log the
@@ -79,7 +117,8 @@ fn apply(ext: &mut Extensions, e: &Edit, idx: usize, log: &Log) -> Option<()> {
             id
         }
     };
-    let marker = Arc::new(Marker { log: log.clone(), prio: Mutex::new(e.prio), a: e.pa.clone(), b: e.pb.clone() });
+    let mark = idx as u128;
+    let marker = Arc::new(Marker { log: log.clone(), prio: Mutex::new(e.prio), mark, a: e.pa.clone(), b: e.pb.clone(), pref: e.ppref });
     let keep = marker.clone();
     let remove = e.code == 2;
     let key = leak(&e.key)?;
@@ -93,9 +132,9 @@ fn apply(ext: &mut Extensions, e: &Edit, idx: usize, log: &Log) -> Option<()> {
             Uri::try_from(&e.pb[..]).ok()?;
             ext.add_prime(
                 kvarn::prime!(req, _host, _addr, move |marker: Arc<Marker>| {
-                    let seen = req.uri().path().as_bytes().to_vec();
-                    marker.log.lock().unwrap().push(X::L(vec![X::N(0), X::z(*marker.prio.lock().unwrap()), X::b(&seen)]));
-                    if seen == marker.a {
+                    let seen = target_of(req.uri());
+                    marker.log.lock().unwrap().push(X::L(vec![X::N(0), X::z(*marker.prio.lock().unwrap()), X::N(marker.mark), X::b(&seen)]));
+                    if req.uri().path().as_bytes() == &marker.a[..] {
                         Some(Uri::try_from(&marker.b[..]).unwrap())
                     } else {
                         None
@@ -114,9 +153,9 @@ fn apply(ext: &mut Extensions, e: &Edit, idx: usize, log: &Log) -> Option<()> {
             ext.add_prepare_fn(
                 Box::new(move |req, _| req.uri().path().as_bytes().starts_with(&m2.a)),
                 kvarn::prepare!(req, _host, _path, _addr, move |marker: Arc<Marker>| {
-                    let seen = req.uri().path().as_bytes().to_vec();
-                    marker.log.lock().unwrap().push(X::L(vec![X::N(2), X::z(*marker.prio.lock().unwrap()), X::b(&seen)]));
-                    FatResponse::no_cache(Response::new(Bytes::copy_from_slice(&marker.b)))
+                    let seen = target_of(req.uri());
+                    marker.log.lock().unwrap().push(X::L(vec![X::N(2), X::z(*marker.prio.lock().unwrap()), X::N(marker.mark), X::b(&seen)]));
+                    fat(&marker.b, marker.pref)
                 }),
                 mk(),
             );
@@ -133,7 +172,7 @@ fn apply(ext: &mut Extensions, e: &Edit, idx: usize, log: &Log) -> Option<()> {
                 kvarn::present!(data, move |marker: Arc<Marker>| {
                     // a present_fn extension looking at its (empty) arguments
                     let nargs = data.args.iter().count();
-                    let mut ev = vec![X::N(3), X::z(*marker.prio.lock().unwrap())];
+                    let mut ev = vec![X::N(3), X::z(*marker.prio.lock().unwrap()), X::N(marker.mark)];
                     if nargs != 0 {
                         ev.push(X::n(nargs));
                     }
@@ -147,7 +186,7 @@ fn apply(ext: &mut Extensions, e: &Edit, idx: usize, log: &Log) -> Option<()> {
         3 => {
             ext.add_package(
                 kvarn::package!(_resp, _req, _host, _addr, move |marker: Arc<Marker>| {
-                    marker.log.lock().unwrap().push(X::L(vec![X::N(6), X::z(*marker.prio.lock().unwrap())]));
+                    marker.log.lock().unwrap().push(X::L(vec![X::N(6), X::z(*marker.prio.lock().unwrap()), X::N(marker.mark)]));
                 }),
                 mk(),
             );
@@ -157,7 +196,7 @@ fn apply(ext: &mut Extensions, e: &Edit, idx: usize, log: &Log) -> Option<()> {
         4 => {
             ext.add_post(
                 kvarn::post!(_req, _host, _pipe, _bytes, _addr, move |marker: Arc<Marker>| {
-                    marker.log.lock().unwrap().push(X::L(vec![X::N(7), X::z(*marker.prio.lock().unwrap())]));
+                    marker.log.lock().unwrap().push(X::L(vec![X::N(7), X::z(*marker.prio.lock().unwrap()), X::N(marker.mark)]));
                 }),
                 mk(),
             );
@@ -167,36 +206,38 @@ fn apply(ext: &mut Extensions, e: &Edit, idx: usize, log: &Log) -> Option<()> {
         5 => {
             let body = e.body.clone();
             let k = e.key.clone();
-            let m = Arc::new(Marker { log: log.clone(), prio: Mutex::new(0), a: k, b: body });
+            let m = Arc::new(Marker { log: log.clone(), prio: Mutex::new(0), mark, a: k, b: body, pref: e.pref });
             ext.add_prepare_single(
                 key,
                 kvarn::prepare!(req, _host, _path, _addr, move |m: Arc<Marker>| {
-                    let seen = req.uri().path().as_bytes().to_vec();
-                    m.log.lock().unwrap().push(X::L(vec![X::N(1), X::b(&m.a), X::b(&seen)]));
-                    FatResponse::no_cache(Response::new(Bytes::copy_from_slice(&m.b)))
+                    let seen = target_of(req.uri());
+                    m.log.lock().unwrap().push(X::L(vec![X::N(1), X::b(&m.a), X::N(m.mark), X::b(&seen)]));
+                    fat(&m.b, m.pref)
                 }),
             );
         }
         6 if remove => ext.remove_present_internal(key),
         6 => {
-            let m = Arc::new(Marker { log: log.clone(), prio: Mutex::new(0), a: e.key.clone(), b: Vec::new() });
+            let m = Arc::new(Marker { log: log.clone(), prio: Mutex::new(0), mark, a: e.key.clone(), b: Vec::new(), pref: 0 });
             ext.add_present_internal(
                 key,
                 kvarn::present!(data, move |m: Arc<Marker>| {
                     let name = data.args.name().as_bytes().to_vec();
                     let args: Vec<X> = data.args.iter().map(|a| X::b(a.as_bytes())).collect();
-                    m.log.lock().unwrap().push(X::L(vec![X::N(5), X::b(&name), X::L(args)]));
+                    // as kvarn_extensions' templates read them: from the back
+                    let rargs: Vec<X> = data.args.iter().rev().map(|a| X::b(a.as_bytes())).collect();
+                    m.log.lock().unwrap().push(X::L(vec![X::N(5), X::b(&name), X::N(m.mark), X::L(args), X::L(rargs)]));
                 }),
             );
         }
         _ if remove => ext.remove_present_file(key),
         _ => {
-            let m = Arc::new(Marker { log: log.clone(), prio: Mutex::new(0), a: e.key.clone(), b: Vec::new() });
+            let m = Arc::new(Marker { log: log.clone(), prio: Mutex::new(0), mark, a: e.key.clone(), b: Vec::new(), pref: 0 });
             ext.add_present_file(
                 key,
                 kvarn::present!(data, move |m: Arc<Marker>| {
-                    let nargs = data.args.iter().count();
-                    let mut ev = vec![X::N(4), X::b(&m.a)];
+                    let nargs = data.args.iter().rev().count();
+                    let mut ev = vec![X::N(4), X::b(&m.a), X::N(m.mark)];
                     if nargs != 0 {
                         ev.push(X::n(nargs));
                     }
@@ -216,7 +257,32 @@ fn fix_prio<'a>(marker: &Arc<Marker>, ids: impl Iterator<Item = &'a Id>, name: &
     }
 }
 
-async fn one_request(desc: Arc<PortDescriptor>, path: &[u8]) -> std::io::Result<Option<(u16, Vec<u8>)>> {
+struct Req {
+    method: u128,
+    target: Vec<u8>,
+    range: Option<(u128, u128)>,
+}
+
+fn parse_req(x: &X) -> Option<Req> {
+    if let Some(p) = x.as_b() {
+        return Some(Req { method: 0, target: p.to_vec(), range: None });
+    }
+    let l = x.as_l()?;
+    if l.len() != 3 {
+        return None;
+    }
+    let r = l[2].as_l()?;
+    let range = match r.len() {
+        0 => None,
+        2 => Some((r[0].as_n()?, r[1].as_n()?)),
+        _ => return None,
+    };
+    Some(Req { method: l[0].as_n()?, target: l[1].as_b()?.to_vec(), range })
+}
+
+const READ_TIMEOUT: Duration = Duration::from_secs(20);
+
+async fn one_request(desc: Arc<PortDescriptor>, r: &Req) -> std::io::Result<Option<(u16, Vec<u8>)>> {
     use tokio::io::{AsyncReadExt, AsyncWriteExt};
     let listener = tokio::net::TcpListener::bind("127.0.0.1:0").await?;
     let addr = listener.local_addr()?;
@@ -225,10 +291,24 @@ async fn one_request(desc: Arc<PortDescriptor>, path: &[u8]) -> std::io::Result<
     let task = tokio::spawn(async move {
         let _ = kvarn::handle_connection(kvarn::Incoming::Tcp(server_end), peer, desc, || true).await;
     });
+    let head_only = r.method == 1;
     let mut req = Vec::new();
-    req.extend_from_slice(b"GET ");
-    req.extend_from_slice(path);
-    req.extend_from_slice(b" HTTP/1.1\r\nHost: localhost\r\n\r\n");
+    req.extend_from_slice(match r.method {
+        0 => &b"GET "[..],
+        1 => &b"HEAD "[..],
+        2 => &b"POST "[..],
+        3 => &b"PUT "[..],
+        _ => &b"DELETE "[..],
+    });
+    req.extend_from_slice(&r.target);
+    req.extend_from_slice(b" HTTP/1.1\r\nHost: localhost\r\n");
+    if let Some((s, e)) = r.range {
+        req.extend_from_slice(format!("Range: bytes={s}-{e}\r\n").as_bytes());
+    }
+    if r.method >= 2 {
+        req.extend_from_slice(b"Content-Length: 0\r\n");
+    }
+    req.extend_from_slice(b"\r\n");
     client.write_all(&req).await?;
     let mut buf = Vec::new();
     let mut tmp = [0u8; 4096];
@@ -241,22 +321,35 @@ async fn one_request(desc: Arc<PortDescriptor>, path: &[u8]) -> std::io::Result<
         if let Some(he) = head_end {
             let head = String::from_utf8_lossy(&buf[..he]).to_ascii_lowercase();
             let status: u16 = head.split(' ').nth(1).and_then(|s| s.parse().ok()).unwrap_or(0);
-            let len: usize = head
-                .lines()
-                .find_map(|l| l.strip_prefix("content-length:").map(|v| v.trim().parse::<usize>().unwrap_or(0)))
-                .unwrap_or(0);
-            if buf.len() >= he + len {
-                result = Some((status, buf[he..he + len].to_vec()));
-                break;
+            // no content-length (a streamed body): the body ends where the connection ends
+            let len: Option<usize> = if head_only {
+                Some(0)
+            } else {
+                head.lines().find_map(|l| l.strip_prefix("content-length:").map(|v| v.trim().parse::<usize>().unwrap_or(0)))
+            };
+            match len {
+                Some(len) if buf.len() >= he + len => {
+                    result = Some((status, buf[he..he + len].to_vec()));
+                    break;
+                }
+                _ => {}
             }
         }
-        let n = match tokio::time::timeout(Duration::from_secs(10), client.read(&mut tmp)).await {
+        let n = match tokio::time::timeout(READ_TIMEOUT, client.read(&mut tmp)).await {
             Ok(Ok(n)) => n,
             Ok(Err(e)) if e.kind() == std::io::ErrorKind::ConnectionReset => 0,
             Ok(Err(e)) => return Err(e),
             Err(_) => return Err(std::io::Error::new(std::io::ErrorKind::TimedOut, "no response")),
         };
         if n == 0 {
+            if let Some(he) = head_end {
+                let head = String::from_utf8_lossy(&buf[..he]).to_ascii_lowercase();
+                if !head.contains("content-length:") {
+                    let status: u16 = head.split(' ').nth(1).and_then(|s| s.parse().ok()).unwrap_or(0);
+                    result = Some((status, buf[he..].to_vec()));
+                    break;
+                }
+            }
             if !buf.is_empty() {
                 return Err(std::io::Error::new(std::io::ErrorKind::UnexpectedEof, "partial response"));
             }
@@ -267,21 +360,87 @@ async fn one_request(desc: Arc<PortDescriptor>, path: &[u8]) -> std::io::Result<
     // end of the connection: the server task returns (or has panicked); only then is the log complete
     let _ = client.shutdown().await;
     drop(client);
-    match tokio::time::timeout(Duration::from_secs(10), task).await {
+    match tokio::time::timeout(READ_TIMEOUT, task).await {
         Ok(_) => {}
         Err(_) => return Err(std::io::Error::new(std::io::ErrorKind::TimedOut, "server task did not end")),
     }
     Ok(result)
 }
 
+static DIR_COUNTER: std::sync::atomic::AtomicUsize = std::sync::atomic::AtomicUsize::new(0);
+
+struct TempDir(std::path::PathBuf);
+impl Drop for TempDir {
+    fn drop(&mut self) {
+        let _ = std::fs::remove_dir_all(&self.0);
+    }
+}
+
+/// the files of the public directory: `<tmp>/public/<path without the leading slash>`
+fn make_files(files: &[X]) -> Option<Result<TempDir, std::io::Error>> {
+    let n = DIR_COUNTER.fetch_add(1, std::sync::atomic::Ordering::SeqCst);
+    let dir = std::env::temp_dir().join(format!("kvh-c16-{}-{}", std::process::id(), n));
+    let mut list = Vec::new();
+    for f in files {
+        let f = f.as_l()?;
+        if f.len() != 2 {
+            return None;
+        }
+        let (p, c) = (f[0].as_b()?, f[1].as_b()?);
+        let p = std::str::from_utf8(p).ok()?;
+        // only plain relative names: segments of [a-z0-9.] that are not "." or ".."
+        if !p.starts_with('/') || p.len() < 2 {
+            return None;
+        }
+        for seg in p[1..].split('/') {
+            if seg.is_empty() || seg == "." || seg == ".." || !seg.bytes().all(|b| b.is_ascii_lowercase() || b.is_ascii_digit() || b == b'.') {
+                return None;
+            }
+        }
+        list.push((p[1..].to_owned(), c.to_vec()));
+    }
+    let guard = TempDir(dir.clone());
+    let r = (|| {
+        std::fs::create_dir_all(dir.join("public"))?;
+        for (p, c) in &list {
+            let path = dir.join("public").join(p);
+            if let Some(parent) = path.parent() {
+                std::fs::create_dir_all(parent)?;
+            }
+            std::fs::write(path, c)?;
+        }
+        Ok(())
+    })();
+    Some(r.map(|()| guard))
+}
+
+fn trouble(what: &str) -> X {
+    X::L(vec![X::N(93), X::b(what)])
+}
+
 fn run(x: &X) -> X {
     let l = match x.as_l() {
-        Some(l) if l.len() == 2 => l,
+        Some(l) if l.len() == 2 || l.len() == 3 => l,
         _ => return X::bad(),
     };
-    let (edits, paths) = match (l[0].as_l(), l[1].as_l()) {
+    let (edits, reqs) = match (l[0].as_l(), l[1].as_l()) {
         (Some(e), Some(p)) => (e, p),
         _ => return X::bad(),
+    };
+    let (cache_on, files) = if l.len() == 3 {
+        match l[2].as_l() {
+            Some(o) if o.len() == 2 => match (o[0].as_bool(), o[1].as_l()) {
+                (Some(c), Some(f)) if f.is_empty() => (c, None),
+                (Some(c), Some(f)) if f.len() == 1 => match f[0].as_l() {
+                    Some(fs) => (c, Some(fs)),
+                    None => return X::bad(),
+                },
+                _ => return X::bad(),
+            },
+            _ => return X::bad(),
+        }
+    } else {
+        (false, None)
     };
     let log: Log = Arc::new(Mutex::new(Vec::new()));
     let mut ext = Extensions::empty();
@@ -296,41 +455,67 @@ fn run(x: &X) -> X {
             return ood();
         }
     }
-    let mut ps = Vec::new();
-    for p in paths {
-        match p.as_b() {
-            Some(p) if p.first() == Some(&b'/') && Uri::try_from(p).is_ok() => ps.push(p.to_vec()),
-            Some(_) => return ood(),
+    let mut rs = Vec::new();
+    for r in reqs {
+        match parse_req(r) {
+            Some(r) => {
+                // the model's domain: a target that starts with '/', is a valid URI, without percent-encoding or fragment
+                if r.target.first() != Some(&b'/') || r.target.contains(&b'%') || r.target.contains(&b'#') || r.method > 4 || Uri::try_from(&r.target[..]).is_err() {
+                    return ood();
+                }
+                rs.push(r)
+            }
             None => return X::bad(),
         }
     }
     let mut options = host::Options::new();
-    options.disable_fs();
-    let mut host = Host::unsecure("localhost", "/nonexistent-kvarn-verif", ext, options);
+    let mut _guard = None;
+    let base = match files {
+        None => {
+            options.disable_fs();
+            "/nonexistent-kvarn-verif".to_owned()
+        }
+        Some(fs) => match make_files(fs) {
+            None => return ood(),
+            Some(Err(e)) => return X::L(vec![trouble(&format!("temp dir: {:?}", e.kind()))]),
+            Some(Ok(g)) => {
+                let p = g.0.to_string_lossy().into_owned();
+                _guard = Some(g);
+                p
+            }
+        },
+    };
+    let mut host = Host::unsecure("localhost", base, ext, options);
     host.limiter.disable();
-    host.disable_response_cache();
-    host.disable_fs_cache();
+    if !cache_on {
+        host.disable_response_cache();
+        host.disable_fs_cache();
+    }
     let coll = HostCollection::builder().insert(host).build();
     let desc = Arc::new(PortDescriptor::unsecure(8080, coll));
-    let rt = tokio::runtime::Builder::new_current_thread().enable_all().build().unwrap();
+    let rt = match tokio::runtime::Builder::new_current_thread().enable_all().build() {
+        Ok(rt) => rt,
+        Err(e) => return X::L(vec![trouble(&format!("runtime: {:?}", e.kind()))]),
+    };
     let out = rt.block_on(async move {
         let mut out = Vec::new();
-        for p in &ps {
+        for r in &rs {
             log.lock().unwrap().clear();
-            let r = one_request(desc.clone(), p).await;
+            let res = one_request(desc.clone(), r).await;
             let events: Vec<X> = log.lock().unwrap().clone();
-            out.push(match r {
-                Err(e) => X::L(vec![X::N(93), X::b(format!("{:?}", e.kind()))]),
+            out.push(match res {
+                Err(e) => trouble(&format!("{:?}", e.kind())),
                 Ok(None) => X::L(vec![X::panic(), X::L(events)]),
                 Ok(Some((status, body))) => {
-                    // the 404 page is kvarn's default error body; only the status is compared
-                    let body = if status == 404 { Vec::new() } else { body };
+                    // an error page is kvarn's default error body; only the status is compared
+                    let body = if status >= 400 { Vec::new() } else { body };
                     X::L(vec![X::ok(X::L(vec![X::n(status), X::b(&body)])), X::L(events)])
                 }
             });
         }
         out
     });
+    drop(rt);
     X::L(out)
 }
 
